@@ -18,7 +18,8 @@ RULE = ("Base trees covering every level (feature > scenario / outline with two 
 ASSUMPTIONS = ["feature/rule hooks of a container whose own tags match but which contains no selected scenario are not checked (statement silent)"]
 
 EXPRS = ("t", "not t", "u", "t and u", "t or u", "not (t or u)", "t and not u", "t*", "-t", "t,u",
-         "t && not u", "t && -u", "t,u && -u", "t or u && not t")      # "x && y" = two --tags arguments
+         "t && not u", "t && -u", "t,u && -u", "t or u && not t",      # "x && y" = two --tags arguments
+         "r<1>", "not r<1>")
 
 
 def bases(tier):
@@ -56,6 +57,13 @@ def programs(tier):
                     yield mk(lambda s: (asg[s],) if s in asg else ()), n
     for p in ptag_programs():
         yield p, 1
+    # tags whose text looks like a placeholder ('r<1>') on every level in turn: only the OUTLINE's own tags are templates
+    for name, mk, slots in bases(tier):
+        for slot in slots:
+            if slot in ("o", "ro"):
+                continue        # the outline's own tags are templates (a tag with an unknown placeholder is dropped: C06)
+            yield mk(lambda s_, slot=slot: ("r<1>",) if s_ == slot else ()), 1
+            yield mk(lambda s_, slot=slot: ("r<1>",) if s_ == slot else (("t",) if s_ == slots[-1] else ())), 2
 
 
 def run_case(case):
